@@ -32,6 +32,15 @@ def bootstrap():
         sys.exit(2)
     from simkit import pristine
     pristine.snapshot()       # imports every submodule; records the pristine state
+    # The cyclic garbage collector is a scheduler the simulation does not own: when it runs, finalisers
+    # (generators suspended inside `try/finally`, which restore ctx.prec and call library functions) execute
+    # library code in the middle of whatever step happens to be running.  Automatic collection is switched
+    # off for the whole process (workers and forked children inherit it); World.guarded collects explicitly
+    # before every monitored region, so finalisers run at step boundaries, the same ones in every mode.
+    import gc
+    gc.collect()
+    gc.freeze()
+    gc.disable()
     return mpmath
 
 def pkg_dir():
